@@ -236,6 +236,8 @@ def run(ck):
               "without cause, or under an extra condition)", ev, aborts[0].ast if aborts else h.ast)
         from rules.shared import unknown_event_not_fatal
         unknown_event_not_fatal(ck, R3)
+        from rules.eventrun import event_run_obligations
+        event_run_obligations(ck, R3, ('errors', 'params'))
         unk = [x for x in hs if handler_types(x.ast) == ['EdzedUnknownEvent']]
         ok = True
         ck.ob(R3, f"{ev.fid} :: unknown event not fatal (clause order)", ok,
